@@ -181,6 +181,19 @@ impl Debugger {
         Ok(StepResult::Done)
     }
 
+    /// The stepped instruction may end the process: do what [`Self::continue_execution`]
+    /// does when the debugee exits.
+    fn on_step_error(&mut self, error: Error) -> Error {
+        if let ProcessExit(code) = error {
+            _ = self
+                .watchpoints
+                .clear_local_disable_global(self.debugee.tracee_ctl(), &mut self.breakpoints);
+            _ = self.breakpoints.disable_all_breakpoints(&self.debugee);
+            self.hooks.on_exit(code);
+        }
+        error
+    }
+
     /// Move debugee to next instruction, step over breakpoint if needed.
     /// May return a [`StopReason::SignalStop`] if the step didn't happen cause signal.
     ///
@@ -190,10 +203,11 @@ impl Debugger {
         let mb_reason = if self.breakpoints.get_enabled(loc.pc).is_some() {
             self.step_over_breakpoint()?
         } else {
-            let maybe_reason = self.debugee.tracer_mut().single_step(
+            let step_result = self.debugee.single_step(
                 TraceContext::new(&self.breakpoints.active_breakpoints(), &self.watchpoints),
                 loc.pid,
-            )?;
+            );
+            let maybe_reason = step_result.map_err(|e| self.on_step_error(e))?;
             self.ecx_update_location()?;
             maybe_reason
         };
@@ -215,10 +229,14 @@ impl Debugger {
             && brkpt.is_enabled()
         {
             brkpt.disable()?;
-            let maybe_reason = self.debugee.tracer_mut().single_step(
+            let step_result = self.debugee.single_step(
                 TraceContext::new(&self.breakpoints.active_breakpoints(), &self.watchpoints),
                 tracee_pid,
-            )?;
+            );
+            let maybe_reason = match step_result {
+                Ok(maybe_reason) => maybe_reason,
+                Err(e) => return Err(self.on_step_error(e)),
+            };
             brkpt.enable()?;
             self.ecx_update_location()?;
             return Ok(maybe_reason);
